@@ -25,3 +25,33 @@ reg(
     "abstract array-type inference at kernel call sites vs. parsed numba signatures; def-use origin rules",
     "DESIGN.md §2 C37, §1 E2",
 )
+
+reg(
+    "C24",
+    "Decides structural clauses only: (R24.1) every branch of count_mutations agrees with the kernel's size contract (node-id-indexed arrays are dimensioned by the mask's size, so the mask must have ts.num_nodes entries; a branch asserting otherwise is a contradiction that rejects every valid explicit mask); (R24.2) kernel call sites type-conform and mutation_span_array tallies only non-NULL edges; (R24.3) the explicit sample mask and size_biased reach the kernel unchanged; (R24.4) the kernel credits the edge above the mutation's own node, guarded by edge != NULL, weighted by the sample count iff size_biased. Exactness of the tallies is not decided.",
+    "Trusted: E2 type tables; the recognised shapes of facts (np.full(N,..), assert X.size == N).",
+    "contract/contradiction rule on size facts per branch; E2 signature conformance; def-use wiring; guard rules",
+    "DESIGN.md §2 C24",
+)
+reg(
+    "C38",
+    "Decides the opacity clause: the node whose messages are skipped under ignore_oldest_root must be selected from node times (argmax/max), never from a count such as num_nodes; plus wiring of the flag and that the branch only skips. Today's tree violates it (known finding, pinned by an existing test).",
+    "Trusted: classification of count-derived vs. time-derived expressions by the names they are built from after inlining locals and self attributes.",
+    "origin classification (count-derived vs time-derived) of the operand compared with a node id under the flag's control dependence",
+    "DESIGN.md §2 C38",
+)
+
+reg(
+    "C36",
+    "Decides the crash-safety protocol structurally: no write goes straight to the cache file name; the write goes to a per-writer-unique temporary (mkstemp/NamedTemporaryFile) created in the cache directory and is published by os.replace only after the file is closed/flushed, on the success path; the reader validates shape or relies on the atomic publish; the returned table is the array written. Filesystem semantics of os.replace are assumed.",
+    "Trusted: POSIX atomic rename within one directory; the list of writer/opener/reader call names in sa/rules/c36.py.",
+    "taint from get_precalc_cache() to file-writing calls; typestate write < close/flush < os.replace; def-use",
+    "DESIGN.md §2 C36",
+)
+reg(
+    "C34",
+    "Decides option wiring: every parser dest is, on every runner path reaching the API call, either passed as a pure copy under a related keyword that the selected API function accepts, or rejected by an error_exit guard; boolean options are switchable both ways; --method choices equal the registry; the single dump(args.output) is the last effect and dumps the API result. Byte equality of output is not decided. One known finding (--epsilon dropped for variational_gamma, pinned by a test).",
+    "Trusted: argparse dest derivation rules; recognised dict()/dict-literal keyword packs.",
+    "argparse declaration extraction + path enumeration of the runners + keyword/parameter matching against API signatures",
+    "DESIGN.md §2 C34",
+)
